@@ -99,6 +99,7 @@ func treeCase(c *vlib.Ctx, cfg genCfg, idx int64, nUpd int, ext bool) {
 	okA := ks.runSequential(a, us, id)
 	c.Count("sequential_runs", 1)
 	if !withPerm {
+		ks.hookPhase(a, us, id)
 		return
 	}
 	specB := permuted(spec, r)
@@ -126,6 +127,7 @@ func treeCase(c *vlib.Ctx, cfg genCfg, idx int64, nUpd int, ext bool) {
 	_ = okA
 	_ = okB
 	kp.compareTrees(a, b, us, usB, id)
+	ks.hookPhase(a, us, id)
 }
 
 // concCase: a tree, then `rounds` concurrent rounds on it.
